@@ -21,6 +21,7 @@ Expression forms (tuples, structurally comparable):
   ('discr', e)  ('index', base, idx)  ('len', e)
   ('unknown', tag)
 """
+import os, sys
 import sys
 
 sys.setrecursionlimit(10000)
@@ -382,6 +383,7 @@ class Walker:
                 events.append(("call", ce))
                 self.assign(t["dest"], ce, env, fenv, events, bi)
                 self.model_mem_fns(t, ce, env, fenv)
+                self.model_tamper(ce, env)
                 if t["target"] is None:
                     self._finish(conds, events, None, "diverge", blocks, env, fenv)
                     return
@@ -548,6 +550,86 @@ class Walker:
                 env[a] = ("call", "std::default::Default::default", "Default::default", (), ce[4])
                 if not t["dest"]["p"]:
                     env[t["dest"]["l"]] = old
+
+    TAMPER = ("[T]::reverse", "[T]::sort", "[T]::sort_by", "[T]::sort_by_key", "[T]::sort_unstable", "[T]::sort_unstable_by", "[T]::sort_unstable_by_key",
+              "[T]::rotate_left", "[T]::rotate_right", "[T]::swap", "[T]::fill", "[T]::fill_with", "[T]::swap_with_slice", "[T]::copy_from_slice", "[T]::clone_from_slice",
+              "Vec::truncate", "Vec::clear", "Vec::remove", "Vec::swap_remove", "Vec::pop", "Vec::drain", "Vec::retain", "Vec::retain_mut", "Vec::dedup", "Vec::dedup_by",
+              "Vec::dedup_by_key", "Vec::insert", "Vec::resize", "Vec::resize_with", "Vec::split_off", "Vec::push", "Vec::extend", "Extend::extend", "Vec::append",
+              "Vec::extend_from_slice",
+              # handing out mutable access to the elements: whatever is done through it happens in place
+              "[T]::iter_mut", "[T]::get_mut", "[T]::first_mut", "[T]::last_mut", "[T]::split_at_mut", "[T]::split_first_mut", "[T]::split_last_mut", "[T]::chunks_mut",
+              "IndexMut::index_mut", "[T]::select_nth_unstable", "[T]::partition_dedup", "Vec::as_mut_slice", "Vec::as_mut_ptr", "Vec::spare_capacity_mut")
+    EMPTY_CTORS = ("Vec::new", "Vec::with_capacity", "Default::default", "VecDeque::new", "String::new")
+
+    def model_tamper(self, ce, env):
+        """A local that holds a *computed* collection (the result of a call such as collect(), not an empty vector that the
+        code then fills, and not a place inside a parameter) and is then changed in place - reversed, sorted, truncated,
+        appended to - no longer has the value its defining expression describes: from here on it reads as
+        ('tampered', <that expression>, <method>, site), which no rule's pattern for the constructed value matches."""
+        from .pat import callee_is
+        if not ce[1] or not ce[3] or not callee_is(ce, *self.TAMPER):
+            return
+        a = ce[3][0]
+        mutable = False
+        while isinstance(a, tuple) and a:
+            if a[0] == "ref":
+                mutable = mutable or (len(a) > 2 and bool(a[2]))
+                a = a[1]
+            elif a[0] == "deref":
+                a = a[1]
+            elif a[0] == "cast" and len(a) > 2:
+                a = a[2]            # &mut [T; N] -> &mut [T]
+            elif a[0] == "call" and len(a[3]) == 1 and callee_is(a, "DerefMut::deref_mut", "Vec::as_mut_slice", "AsMut::as_mut", "BorrowMut::borrow_mut"):
+                mutable = True
+                a = a[3][0]
+            elif a[0] == "call" and len(a[3]) == 2 and callee_is(a, "IndexMut::index_mut"):
+                mutable = True
+                a = a[3][0]
+            else:
+                break
+        if not mutable or not isinstance(a, tuple) or not a or a[0] == "tampered":
+            return
+        root = a
+        while isinstance(root, tuple) and root and root[0] in ("field", "index", "deref", "ref"):
+            root = root[1]
+        if isinstance(root, tuple) and root and root[0] == "param":
+            # an argument taken *by value* (or a part it was destructured into) is this function's own local: changing it in
+            # place changes what later reads of it see.  (Behind a reference - `self.values` of `&mut self` - it is a place
+            # of the caller's, read where it is used.)
+            chain, x = [], a
+            while isinstance(x, tuple) and x and x[0] in ("field", "index", "deref", "ref"):
+                chain.append(x[0])
+                x = x[1]
+            if "deref" in chain or not (1 <= root[1] <= self.fn.argc) or not self.by_value_param(root[1]):
+                return
+            new = ("tampered", a, (ce[1] or "").rsplit("::", 1)[-1], ce[4])
+            hit = False
+            for l, v in list(env.items()):
+                if v == a:
+                    env[l] = new
+                    hit = True
+            if a == root and root[1] not in env:
+                env[root[1]] = new
+                hit = True
+            if not hit and self.local_expr(root[1], env) == root:
+                env[root[1]] = ("tampered", root, (ce[1] or "").rsplit("::", 1)[-1], ce[4])      # a part of the parameter was changed: the whole reads as changed
+            return
+        if not (isinstance(root, tuple) and root and root[0] in ("call", "agg")):
+            return              # a place inside a parameter / captured variable: read again where it is used
+        if root[0] == "call" and callee_is(root, *self.EMPTY_CTORS):
+            return              # an accumulator: the rules follow what is appended to it
+        if root[0] == "agg" and not root[3]:
+            return
+        new = ("tampered", a, (ce[1] or "").rsplit("::", 1)[-1], ce[4])
+        for l, v in list(env.items()):
+            if v == a:
+                env[l] = new
+
+    def by_value_param(self, k):
+        try:
+            return (self.fn.j["locals"][k]["ty"] or {}).get("k") not in ("ref", "refmut", "ptr")
+        except Exception:
+            return False
 
     def _ret_from_fields(self, env, fenv):
         fs = sorted((k[1], v) for k, v in fenv.items() if k[0] == 0)
@@ -739,6 +821,8 @@ def short(e, depth=12):
         return "p%d" % e[1]
     if t == "upvar":
         return "^%s" % e[1]
+    if t == "tampered":
+        return "changed-in-place-by-%s(%s)" % (e[2], short(e[1], d))
     if t == "cparam":
         return "c%d" % e[1]
     if t == "const":
